@@ -157,6 +157,8 @@ class ImageFormation(HoloPyObject):
         coords = {
             point_or_flat: flattened_schema.coords[point_or_flat],
             vector: ['x', 'y', 'z']}
+        if point_or_flat == 'point':
+            coords.update(self._point_coordinates(flattened_schema))
         scattered_field = xr.DataArray(
             scattered_field, dims=[point_or_flat, vector], coords=coords,
             attrs=schema.attrs)
@@ -169,6 +171,8 @@ class ImageFormation(HoloPyObject):
         dims = [point_or_flat, 'E_out', 'E_in']
 
         coords = {point_or_flat: flattened_schema.coords[point_or_flat]}
+        if point_or_flat == 'point':
+            coords.update(self._point_coordinates(flattened_schema))
         coords.update({
             'r': (point_or_flat, r_theta_phi[0]),
             'theta': (point_or_flat, r_theta_phi[1]),
@@ -184,6 +188,14 @@ class ImageFormation(HoloPyObject):
         packed = xr.DataArray(
             scat_matrs, dims=dims, coords=coords, attrs=schema.attrs)
         return packed
+
+    @classmethod
+    def _point_coordinates(cls, detector_view):
+        # detector_points stores its positions as non-index coordinates
+        # along 'point'; keep them on the result
+        return {key: ('point', val.values)
+                for key, val in detector_view.coords.items()
+                if key != 'point' and val.dims == ('point',)}
 
     @classmethod
     def _is_detector_view_point_or_flat(cls, detector_view):
